@@ -3295,6 +3295,11 @@ namespace bloch::runtime {
 #endif
             }
         }
+        // Take the scope off the stack before its values are destroyed. Dropping the last
+        // reference to an object runs its destructor, which pushes and pops scopes itself;
+        // destroying the map while it was still the vector's last element let that push_back
+        // construct a new scope on top of the one being destroyed (heap corruption).
+        auto dying = std::move(m_env.back());
         m_env.pop_back();
     }
 
